@@ -319,8 +319,8 @@ def _eq_probe(ctx, u, names, a, ra, rr):
     from pgmpy.factors.discrete import DiscreteFactor
 
     sc = list(ra.scope)
-    if not sc:
-        return
+    if not sc or not np.all(np.isfinite(ra.arr)):
+        return  # x/0 = inf and inf*0 = nan are outside the equality clause (nan != nan by IEEE)
     perm_axes = shuffled(rr, sc)
     # state order permutation per variable
     sperm = {v: shuffled(rr, range(u["card"][v])) for v in sc}
